@@ -82,6 +82,33 @@ def sched(prop, level_text, required, extra_legs=(), **kw):
 HIST_LEG = dict(name='hist', bin='hist', shards=8, timeout=dict(quick=400, thorough=3600), args=dict(cases=dict(quick=6000, thorough=100000)))
 
 PROPS = {
+    'C19': dict(
+        legs=[dict(name='native', bin='sig', shards=16, timeout=dict(quick=300, thorough=3000))],
+        rule='evaluations = histories over {Signals::new, add_signals, remove_signals, set_signals with arbitrary subsets, kill(getpid) 1..3 times, dispatch, drop} '
+             'of 3 signals (length <= 5) and of 6 signals (length <= 12), each executed in a single-threaded process from the pristine signal state, with counting '
+             'sigaction handlers as witnesses of unblocked deliveries; non-trivial = a signal was reported or the mask changed while a signal was pending; '
+             'distinct = distinct sequences of (operation kind, pending?, number of configured signals)',
+        assumptions=COMMON_ASSUME + ['standard signals coalesce: the oracle works on the set of pending signals, not on counts',
+                                     'a pending instance of a signal that gets de-configured may go to the process handler or be dropped; both are accepted',
+                                     'one process runs many histories; each must return to the pristine state (checked) before the next starts'],
+        level_text='sampled runtime exploration: 80k (quick) / 1.6M (thorough) histories; after every call pthread_sigmask must equal the configured set, sigpending must still hold every configured raised signal, '
+                   'handler counters must equal the raises of unconfigured signals; every dispatch must report exactly the pending configured set with signal number, pid and uid; drop unblocks.',
+        level_note='trusted: the kernel\'s pthread_sigmask/sigpending/sigaction as oracle, the small set model (configured, pending) in the engine',
+        technique='runtime monitoring: generated operation histories in a single-threaded process with kernel signal state as oracle',
+    ),
+    'C12': dict(
+        legs=[dict(name='native', bin='wait', shards=16, timeout=dict(quick=400, thorough=2400))],
+        parallel=8,
+        rule='evaluations = measured dispatch calls, one fresh loop per cell of the grid timeout {0, 5, 40, 200 ms, None} x armed timer {none, earlier, equal, later, expired, +1 h, unrepresentable} '
+             'x idle population {empty, ping with live handle, ping with all handles gone, channel with all senders gone, empty executor, not-ready level fd, ready fd with empty interest, fired one-shot, '
+             'disabled sources holding pending readiness}; every cell is non-trivial; distinct = distinct cells',
+        exhaustive_scope='the whole grid (315 cells) once (quick) or five times (thorough)',
+        assumptions=COMMON_ASSUME + ['lower bounds (no spinning) are exact; the upper bound is limit + max(150 ms, 2 x limit) and only three consecutive exceedances of the same cell count, a minority is recorded as inconclusive'],
+        level_text='grid exploration with wall-clock measurement: elapsed >= 0.9 x min(timeout, time to earliest deadline) - 1 ms, the limiting timer fired in that dispatch, no idle source was invoked, '
+                   'zero timeout and the upper bound checked with retries; with None and nothing armed a helper thread pings after 30 ms.',
+        level_note='trusted: Instant::now around the call; scheduler latency below 150 ms on three consecutive tries',
+        technique='runtime monitoring: timing grid with exact lower bounds and retried upper bounds',
+    ),
     'C03': sched('C03', 'sampled schedules: 4k (quick) / 120k (thorough) executions of k pinger threads with cloned handles against a dispatching loop; no_lost, coalesce, no_spurious (against the drain windows seen at the yield points), '
                  'clean close, no spinning, lost-wake state predicate; plus single-threaded ping/clone/drop/disable/enable histories in the hist engine.',
                  {'ping-write:between-drain-pre-and-post': 1, 'ping-write:between-drain-post-and-callback-end': 1, 'ping-write:loop-inside-the-wait': 1, 'ping-write:outside-dispatch-or-between-events': 1, 'close:last-clone-dropped-on-foreign-thread': 1},
